@@ -102,7 +102,8 @@ class Report:
         # a failed obligation whose construct could not even be located says "the code no longer has the shape this rule
         # was written for", not "the code is wrong": when nothing else failed the run ends as analysis-broken (exit 2), never as
         # a violation.  One recognised construct with wrong content is enough for a violation.
-        unrec = [o for o in viol if UNREC_RX.search(o.detail or '')]
+        tpl_all = bool(os.environ.get('VERIF_TPL_UNREC'))
+        unrec = [o for o in viol if UNREC_RX.search(o.detail or '') or (tpl_all and o.rule.startswith('R-TPL'))]
         self.unrecognised = unrec
         if viol and len(unrec) == len(viol) and not os.environ.get('VERIF_STRICT_SHAPES'):
             for o in unrec[:12]:
